@@ -881,6 +881,18 @@ pub fn gen_enum(rng: &mut Rng, class: Class) -> Item {
             if rng.chance(1, 5) {
                 attrs.push(ghost_instr(rng, &cps, true));
             }
+            // variant-level #[ghosts(..)]: fields the other side's variant has in excess; one or
+            // two instructions (default and dedicated), 1-3 names each, names may repeat across them
+            if rng.chance(1, 4) {
+                let n_instr = if rng.chance(2, 3) { 1 } else { 2 };
+                for gi in 0..n_instr {
+                    let n = rng.range(1, 3);
+                    let names = pick_distinct(rng, &["g_a", "g_b", "extra", "0", "1", "g_c"], n);
+                    let data: Vec<String> = names.iter().map(|v| format!("{}: {}", v, default_expr(rng))).collect();
+                    let ded = if gi > 0 || rng.chance(1, 3) { format!("{}| ", rng.pick(&cps)) } else { String::new() };
+                    attrs.push(format!("{}({}{})", rng.pick(&["ghosts", "ghosts", "ghosts_owned", "ghosts_ref"]), ded, data.join(", ")));
+                }
+            }
             if vshape >= 2 && rng.chance(1, 2) {
                 let ded = if rng.chance(1, 3) { format!("{}| ", rng.pick(&cps)) } else { String::new() };
                 attrs.push(format!("type_hint({}as {})", ded, rng.pick(&["{}", "()", "Unit"])));
@@ -1499,7 +1511,117 @@ pub fn generate(rng: &mut Rng, corpus: &Corpus, class: Class) -> Item {
     if item.raw.is_none() && rng.chance(1, 6) {
         collide_names(rng, corpus, &mut item);
     }
+    if item.raw.is_none() && rng.chance(1, 8) {
+        let n = rng.range(1, 3);
+        for _ in 0..n {
+            extend_a_list(rng, &mut item);
+        }
+    }
     item
+}
+
+/// Multiplicity everywhere: wherever the DSL takes a comma-separated list (ghost names, vars,
+/// child_parents entries, where-clause predicates, instruction parameters, patterns), one
+/// element is duplicated under a new leading name (`a: { .. }` -> `a: { .. }, a_2: { .. }`).
+/// Knows nothing about what the list means.
+fn extend_a_list(rng: &mut Rng, item: &mut Item) {
+    let total = item.n_attrs();
+    if total == 0 {
+        return;
+    }
+    let pick = rng.below(total as u64) as usize;
+    let attr: &mut String = if pick < item.type_attrs.len() {
+        &mut item.type_attrs[pick]
+    } else {
+        let mut r = pick - item.type_attrs.len();
+        let mut found = None;
+        for m in item.members.iter_mut() {
+            if r < m.attrs.len() {
+                found = Some(&mut m.attrs[r]);
+                break;
+            }
+            r -= m.attrs.len();
+        }
+        match found {
+            Some(a) => a,
+            None => return,
+        }
+    };
+    // all parenthesised groups: (open, close) byte positions, brace/bracket/paren aware
+    let b: Vec<char> = attr.chars().collect();
+    let mut stack: Vec<(usize, char)> = Vec::new();
+    let mut groups: Vec<(usize, usize)> = Vec::new();
+    let mut in_str = false;
+    for (i, c) in b.iter().enumerate() {
+        if *c == '"' && (i == 0 || b[i - 1] != '\\') {
+            in_str = !in_str;
+        }
+        if in_str {
+            continue;
+        }
+        match c {
+            '(' | '{' | '[' => stack.push((i, *c)),
+            ')' | '}' | ']' => {
+                if let Some((o, oc)) = stack.pop() {
+                    if oc == '(' && *c == ')' {
+                        groups.push((o, i));
+                    }
+                }
+            },
+            _ => {},
+        }
+    }
+    if groups.is_empty() {
+        return;
+    }
+    let (o, cl) = groups[rng.below(groups.len() as u64) as usize];
+    // top-level elements of the group, after an optional `Type|` prefix
+    let inner: Vec<char> = b[o + 1..cl].to_vec();
+    let mut depth = 0i32;
+    let mut start = 0usize;
+    let mut elems: Vec<(usize, usize)> = Vec::new();
+    let mut in_str = false;
+    for (i, c) in inner.iter().enumerate() {
+        if *c == '"' {
+            in_str = !in_str;
+        }
+        if in_str {
+            continue;
+        }
+        match c {
+            '(' | '{' | '[' | '<' => depth += 1,
+            ')' | '}' | ']' => depth -= 1,
+            '>' if i > 0 && inner[i - 1] != '-' && inner[i - 1] != '=' => depth -= 1,
+            '|' if depth == 0 && elems.is_empty() && start == 0 => start = i + 1,
+            ',' if depth == 0 => {
+                elems.push((start, i));
+                start = i + 1;
+            },
+            _ => {},
+        }
+    }
+    if start < inner.len() {
+        elems.push((start, inner.len()));
+    }
+    let elems: Vec<(usize, usize)> = elems.into_iter().filter(|(a, z)| inner[*a..*z].iter().any(|c| !c.is_whitespace())).collect();
+    if elems.is_empty() {
+        return;
+    }
+    let (a, z) = elems[rng.below(elems.len() as u64) as usize];
+    let elem: String = inner[a..z].iter().collect();
+    let t = elem.trim_start();
+    let lead: String = t.chars().take_while(|c| c.is_alphanumeric() || *c == '_').collect();
+    if lead.is_empty() || lead.chars().all(|c| c.is_ascii_digit()) {
+        return;
+    }
+    let renamed = format!(" {}_2{}", lead, &t[lead.len()..]);
+    let insert_at = o + 1 + z;
+    let mut out: String = b[..insert_at].iter().collect();
+    out.push(',');
+    out.push_str(&renamed);
+    out.extend(b[insert_at..].iter());
+    *attr = out;
+    item.origin = format!("{}+list", item.origin);
 }
 
 /// whole-word replacement (`from` not followed or preceded by an identifier character; a
